@@ -10,27 +10,10 @@ The two policies the client primitives need (C19):
 -/
 namespace Slock.Engine
 
-theorem removeHolder_length_le (hs : List Hold) (h : Hold) : (removeHolder hs h).length ≤ hs.length := by
-  induction hs with
-  | nil => simp [removeHolder]
-  | cons x xs ih =>
-    unfold removeHolder
-    split
-    · simp
-    · simp only [List.length_cons]; omega
-
 theorem replaceHolder_len (hs : List Hold) (h h' : Hold) : (replaceHolder hs h h').length = hs.length := by
   induction hs with
   | nil => rfl
   | cons x xs ih => unfold replaceHolder; split <;> simp [ih]
-
-theorem length_le_depthSum (hs : List Hold) (hp : ∀ h ∈ hs, 1 ≤ h.depth) : hs.length ≤ depthSum hs := by
-  induction hs with
-  | nil => simp
-  | cons x xs ih =>
-    have h1 := hp x (by simp)
-    have h2 := ih (fun h hm => hp h (List.mem_cons_of_mem _ hm))
-    simp only [List.length_cons, depthSum_cons]; omega
 
 theorem KeyInv.length_le_locked {k : Key} (hk : KeyInv k) : k.holders.length ≤ k.locked := by
   rw [hk.sum]; exact length_le_depthSum _ hk.pos
